@@ -1179,7 +1179,7 @@ func (s *stats) noteFamily(p prog, m *sv.VM, a implRes) {
 }
 
 func (s *stats) noteFamilyUndet(p prog, why string) {
-	if !strings.HasPrefix(p.Section, "layout-") {
+	if !isFamilySection(p.Section) {
 		return
 	}
 	f := famOf(p.Section)
@@ -1192,6 +1192,9 @@ func (s *stats) familyReport() map[string]any {
 	out := map[string]any{}
 	famMu.Lock()
 	for name, f := range fams {
+		if !strings.HasPrefix(name, "layout-") {
+			continue
+		}
 		out[name] = map[string]any{
 			"programs_compared":               f.programs,
 			"halt":                            f.halt,
